@@ -1289,6 +1289,10 @@ extern "C" {
             break;
           }
           case dr_dag_node_kind_other: 
+            /* other -> its successor (the dumped DAG has this edge) */
+            if (x->next) {
+              s->info.logical_edge_counts[dr_dag_edge_kind_other_cont]++;
+            }
             break;
           case dr_dag_node_kind_section:
             if (x->next) {
